@@ -149,6 +149,19 @@ pub fn family(seed: u64) -> Vec<Art> {
         kvs: kv(&[(b"ab", 5), (b"ac", 0), (b"b", 0), (b"ba", 7), (b"bb", 0), (b"bc", 1 << 40)]),
         group: "special",
     });
+    // final nodes with more than 32 transitions and a non-zero final output
+    {
+        let mut kvs2: Vec<(Vec<u8>, u64)> = vec![(vec![], 1000)];
+        for i in 0..40usize {
+            kvs2.push((vec![(i * 5 + 3) as u8], (i as u64) * 3 + 1));
+        }
+        out.push(Art { name: "rootfinal40".into(), is_map: true, kvs: kvs2, group: "wide" });
+        let mut kvs3: Vec<(Vec<u8>, u64)> = vec![(b"k".to_vec(), 500_000)];
+        for i in 0..33usize {
+            kvs3.push((vec![b'k', (i * 7 + 1) as u8], (i as u64) + 2));
+        }
+        out.push(Art { name: "kfinal33".into(), is_map: true, kvs: kvs3, group: "wide" });
+    }
     // two equivalent nodes with all 256 transitions
     {
         let mut kvs2: Vec<(Vec<u8>, u64)> = vec![];
